@@ -1203,3 +1203,10 @@ def describe(case, out):
     elif case["kind"] == "xmap":
         d.update({"fn": case["fn"], "k": case["k"], "n": "0" if case["n"] == 0 else ("1-3" if case["n"] <= 3 else "4-7")})
     return d
+
+
+def translate(repo, gen_dir):
+    """regenerate Gen/C07_Kernel.v (kernel expressions of the six sample_xconfig methods, the protocol / configuration setters, the
+    six select() methods, triudix / triuix / xmapix and the sorting optimiser) from the current source; fail closed"""
+    from translate import c07_kernel
+    return [c07_kernel.translate(repo, gen_dir)]
